@@ -21,6 +21,8 @@ pub struct Truth {
     pub wyckoff_row: Vec<i64>,
     pub noisy: bool,
     pub steps: Vec<String>,
+    /// index of the atom of the base crystal (before any re-description) this atom is an image of
+    pub origin_atom: Vec<usize>,
 }
 
 #[derive(Clone, Debug)]
@@ -209,6 +211,7 @@ pub fn crystal_unchecked(h: i32, rng: &mut Rng, norb: usize) -> Crystal {
                 wyckoff_row: vec![-1; n],
                 noisy: false,
                 steps: vec![],
+                origin_atom: (0..n).collect(),
             },
         };
     }
@@ -289,6 +292,7 @@ impl Crystal {
         let mut nums = vec![];
         let mut orbit_id = vec![];
         let mut wy = vec![];
+        let mut oa = vec![];
         // coset representatives of Z^3 / m Z^3: enumerate a box and keep distinct ones
         let bound = m.iter().map(|x| x.abs()).max().unwrap() * 3 + 1;
         let mut reps: Vec<Vector3<f64>> = vec![];
@@ -314,6 +318,7 @@ impl Crystal {
                 nums.push(self.cell.numbers[idx]);
                 orbit_id.push(self.truth.orbit_id[idx]);
                 wy.push(self.truth.wyckoff_row[idx]);
+                oa.push(self.truth.origin_atom[idx]);
             }
         }
         let mut truth = self.truth.clone();
@@ -321,6 +326,7 @@ impl Crystal {
         // x_new = m^-1 x_old ; x_old = P^-1 (x0 - p)  =>  x_new = (P m)^-1 (x0 - p): shift unchanged
         truth.orbit_id = orbit_id;
         truth.wyckoff_row = wy;
+        truth.origin_atom = oa;
         truth.steps.push(label.to_string());
         Crystal { cell: Cell::new(Lattice { basis: self.cell.lattice.basis * mf }, pos, nums), truth }
     }
@@ -352,6 +358,18 @@ impl Crystal {
         c
     }
 
+    /// Mirror image in a right-handed basis: the inversion x -> -x of the fractional coordinates
+    /// (the basis is kept, so handedness of the basis is unchanged while the structure is inverted).
+    pub fn mirror(&self) -> Crystal {
+        let mut c = self.clone();
+        for p in c.cell.positions.iter_mut() {
+            *p = -*p;
+        }
+        c.truth.mirrored = !self.truth.mirrored;
+        c.truth.steps.push("mirror".into());
+        c
+    }
+
     pub fn permute(&self, rng: &mut Rng) -> Crystal {
         let n = self.cell.num_atoms();
         let mut idx: Vec<usize> = (0..n).collect();
@@ -364,6 +382,7 @@ impl Crystal {
         c.cell.numbers = idx.iter().map(|&i| self.cell.numbers[i]).collect();
         c.truth.orbit_id = idx.iter().map(|&i| self.truth.orbit_id[i]).collect();
         c.truth.wyckoff_row = idx.iter().map(|&i| self.truth.wyckoff_row[i]).collect();
+        c.truth.origin_atom = idx.iter().map(|&i| self.truth.origin_atom[i]).collect();
         c.truth.steps.push("permute".into());
         c
     }
